@@ -234,6 +234,18 @@ struct ChildOut {
     timed_out: bool,
 }
 
+/// CPU seconds (user + system) a child has consumed so far. The watchdogs count these rather than
+/// wall-clock time, so a loaded machine cannot turn a slow run into a "hang"; a run that makes no
+/// progress without burning CPU is still caught by a wall-clock bound six times as long.
+fn cpu_secs(pid: u32) -> Option<f64> {
+    let s = std::fs::read_to_string(format!("/proc/{pid}/stat")).ok()?;
+    let rest = &s[s.rfind(')')? + 2..];
+    let f: Vec<&str> = rest.split(' ').collect();
+    let ut: f64 = f.get(11)?.parse().ok()?;
+    let st: f64 = f.get(12)?.parse().ok()?;
+    Some((ut + st) / 100.0)
+}
+
 fn run_child(build: &str, args: &[String], stdin_data: Option<&str>, timeout: Duration) -> Option<ChildOut> {
     let mut child = Command::new(exe_for(build)?)
         .args(args)
@@ -272,7 +284,9 @@ fn run_child(build: &str, args: &[String], stdin_data: Option<&str>, timeout: Du
         match child.try_wait() {
             Ok(Some(st)) => break st,
             Ok(None) => {
-                if start.elapsed() > timeout {
+                let el = start.elapsed();
+                let cpu = cpu_secs(child.id()).unwrap_or(el.as_secs_f64());
+                if el > timeout * 6 || (el > timeout && cpu > timeout.as_secs_f64()) {
                     timed_out = true;
                     let _ = child.kill();
                     break child.wait().ok()?;
@@ -435,12 +449,21 @@ fn run_careful(build: &str, prop: &str, thorough: bool, seed: u64, from: u64, to
         String::from_utf8_lossy(&s).to_string()
     });
     let mut timed_out = false;
+    let mut marker = state.lock().unwrap().1;
+    let mut cpu_at_marker = 0.0f64;
     let status = loop {
         match child.try_wait() {
             Ok(Some(st)) => break Some(st),
             Ok(None) => {
-                let since = state.lock().unwrap().1.elapsed();
-                if since > Duration::from_secs(12) {
+                let last = state.lock().unwrap().1;
+                let cpu = cpu_secs(child.id());
+                if last != marker {
+                    marker = last;
+                    cpu_at_marker = cpu.unwrap_or(0.0);
+                }
+                let since = last.elapsed();
+                let burnt = cpu.map(|c| c - cpu_at_marker).unwrap_or(since.as_secs_f64());
+                if since > Duration::from_secs(72) || (since > Duration::from_secs(12) && burnt > 12.0) {
                     timed_out = true;
                     let _ = child.kill();
                     break child.wait().ok();
